@@ -59,7 +59,10 @@ def generate(rng: random.Random, tier: str, seed: int) -> dict:
     if base.get("truth") and base["truth"][-1]["out"] == "float" and rng.random() < 0.12:
         # a context value that the trace driver can only write through its fallback path (mapping with keys of mixed types,
         # consumed as a parameter by a later node)
-        base["nodes"] = base["nodes"] + [{"processor": "SvCtxWriterMixedKeys"}, {"processor": "rename:mk:mk_moved"}]
+        cand = dict(base, nodes=base["nodes"] + [{"processor": "SvCtxWriterMixedKeys"}, {"processor": "rename:mk:mk_moved"}])
+        t = gen.recompute_truth(cand)
+        if t is not None and not any(x["missing"] or not x["type_ok"] for x in t):
+            base = dict(cand, truth=t)
     modes = ["reuse", "fresh", "launch"]
     if rng.random() < 0.25:
         modes.append("queue")
